@@ -437,6 +437,10 @@ func emit(sb *strings.Builder, x lx, ind string) {
 		emit(sb, x.then, ind+"  ")
 		sb.WriteString(ind + "else\n")
 		emit(sb, x.els, ind+"  ")
+	case lFold:
+		sb.WriteString(fmt.Sprintf("%sList.foldl (fun (%s : %s) (%s : %s) =>\n", ind, x.stName, x.stTyp, x.elem, x.elemTyp))
+		emit(sb, x.body, ind+"    ")
+		sb.WriteString(fmt.Sprintf("%s  ) %s %s\n", ind, x.init, x.xs))
 	case lMatch:
 		sb.WriteString(ind + "match " + x.scrut + " with\n")
 		sb.WriteString(ind + "| none =>\n")
@@ -2142,9 +2146,11 @@ func genTrans(repo, outDir string) error {
 	var sb strings.Builder
 	sb.WriteString("-- REGENERATED by /verif/tools/extract (translate.go) from /repo on every check run. Do not edit.\n")
 	sb.WriteString("-- Go → Lean translation of the whitelisted functions; subset and semantics: tools/extract/translate.go.\n")
-	sb.WriteString("import Corerad.Basic\nimport Corerad.Model.Config\n\n")
+	sb.WriteString("import Corerad.Basic\nimport Corerad.Model.Config\nimport Corerad.Model.ListUtil\n\n")
 	sb.WriteString("set_option linter.unusedVariables false\n\nnamespace Corerad.Gen.Trans\n\nopen Corerad\n\n")
+	defer func() { curTag = "" }()
 	for _, spec := range whitelist {
+		curTag = "Trans" + spec.prop
 		p, err := loadPkg(repo, spec.dir)
 		var defs []leanDef
 		if err == nil {
@@ -2168,6 +2174,25 @@ func genTrans(repo, outDir string) error {
 			all = append(all, d.text)
 		}
 		facts["Trans"+spec.prop+"."+spec.lean] = strings.Join(all, "\n")
+	}
+	// list-processing functions (translate_loop.go)
+	for _, spec := range loopWhitelist {
+		curTag = "Trans" + spec.prop
+		p, err := loadPkg(repo, spec.dir)
+		var d leanDef
+		if err == nil {
+			d, err = translateLoopFunc(p, spec)
+		} else {
+			err = fmt.Errorf("translate: %s: %v", spec.fn, err)
+		}
+		if err != nil {
+			failf("%s", err)
+			sb.WriteString("-- NOT TRANSLATED: " + docSafe(err.Error()) + "\n\n")
+			facts["Trans"+spec.prop+"."+spec.lean] = "NOT TRANSLATED: " + err.Error()
+			continue
+		}
+		sb.WriteString(d.text + "\n\n")
+		facts["Trans"+spec.prop+"."+spec.lean] = d.text
 	}
 	sb.WriteString("end Corerad.Gen.Trans\n")
 	p := filepath.Join(outDir, "Trans.lean")
